@@ -794,11 +794,16 @@ class MethodTranslator:
     def nonneg_after(self, s, st: State):
         """names known to be >= 0 after `if name < 0: raise …` did not fire"""
         t = s.test
-        if isinstance(t, ast.Compare) and len(t.ops) == 1 and isinstance(t.ops[0], ast.Lt) \
-                and isinstance(t.left, ast.Name) and self.int_lit(t.comparators[0]) == 0 \
-                and t.left.id in st.env and st.env[t.left.id].kind in (I, N) \
+        name = None
+        if isinstance(t, ast.Compare) and len(t.ops) == 1:
+            op, left, right = t.ops[0], t.left, t.comparators[0]
+            if isinstance(op, (ast.Lt, ast.LtE)) and isinstance(left, ast.Name) and self.int_lit(right) == 0:
+                name = left.id          # `name < 0` / `name <= 0` did not fire
+            elif isinstance(op, (ast.Gt, ast.GtE)) and isinstance(right, ast.Name) and self.int_lit(left) == 0:
+                name = right.id         # `0 > name` / `0 >= name` did not fire
+        if name is not None and name in st.env and st.env[name].kind in (I, N) \
                 and s.body and isinstance(s.body[-1], ast.Raise) and not s.orelse:
-            return st.nonneg | {t.left.id}
+            return st.nonneg | {name}
         return st.nonneg
 
     def raise_(self, s, st: State, lines, ind):
@@ -837,7 +842,7 @@ class MethodTranslator:
         a = self.fn.args
         if a.vararg or a.kwonlyargs or a.posonlyargs:
             raise Unsupported(f"signature of {self.spec.py} at {self.where(self.fn)}")
-        if any(self.deco_name(d) for d in self.fn.decorator_list):
+        if self.fn.decorator_list:
             raise Unsupported(f"decorator on {self.spec.py}")
         names = [p.arg for p in a.args]
         if not names:
@@ -863,9 +868,6 @@ class MethodTranslator:
             lines.append(f"  let self : Wv.Attrs K := {self.spec.init}")
         self.block(list(self.fn.body), State(env), lines, "  ")
         return "\n".join([self.head()] + lines)
-
-    def deco_name(self, d):
-        return True
 
     def head(self):
         return head(self.spec)
